@@ -35,12 +35,12 @@ class ScriptedGen(np.random.Generator):
 
     def choice(self, a, size=None, replace=True, p=None, axis=0, shuffle=True):  # noqa: D102
         out = ScriptedGen.chooser("choice", (int(a), None if p is None else np.array(p, dtype=float)))
-        ScriptedGen.log.append((self.sid(), "choice", (int(a), p), out))
+        ScriptedGen.log.append((self.sid(), "choice", (int(a), p), out, id(self)))
         return out
 
     def random(self, *a, **k):  # noqa: D102
         out = ScriptedGen.chooser("random", None)
-        ScriptedGen.log.append((self.sid(), "random", None, out))
+        ScriptedGen.log.append((self.sid(), "random", None, out, id(self)))
         return out
 
 
@@ -74,10 +74,11 @@ def staircase(n_ens, ens_num, last, weight=1):
 class Sim:
     """one real REPEX_state + the mirrored line protocol for the Lean driver"""
 
-    def __init__(self, ctx, n_ens, workers, steps, seed=0, wf=False, eng_types=1, cstep=0, image=None):
+    def __init__(self, ctx, n_ens, workers, steps, seed=0, wf=False, eng_types=1, cstep=0, image=None, rng=None):
         from infretis.classes import repex as R
         self.R = R
         self.ctx = ctx
+        self.rng = rng if rng is not None else ctx.rng
         self.n_ens = n_ens
         self.n = n_ens + 1
         self.workers = workers
@@ -136,7 +137,7 @@ class Sim:
         self.kinds.append(kind)
 
     def _choose(self, kind, payload):
-        rng = self.ctx.rng
+        rng = self.rng
         if kind == "random":
             out = 0.25 if rng.random() < 0.5 else 0.75
         else:
@@ -180,8 +181,22 @@ class Sim:
         frac = ";".join(f"{k}:" + ",".join(repr(float(x)) for x in v["frac"]) for k, v in st.traj_data.items())
         occ = ";".join(",".join(str(int(x)) for x in st.engine_occ[k]) for k in self.eng_names)
         ss = st.rgen.bit_generator._seed_seq
-        main_draws = sum(1 for (sid, *_r) in ScriptedGen.log if sid == (int(ss.entropy), ()))
-        return {"W": W, "trajs": trajs, "locks": locks, "locked": locked, "locked0": locked0,
+        main_draws = sum(1 for rec in ScriptedGen.log if rec[4] == id(st.rgen))
+        rfrac, ractive, rlocked, rcstep = "", "", "", ""
+        rt = os.path.join(self.tmp, "restart.toml")
+        if os.path.exists(rt):
+            import tomli
+            try:
+                with open(rt, "rb") as fh:
+                    cur = tomli.load(fh)["current"]
+                rfrac = ";".join(f"{k}:" + ",".join(v) for k, v in cur.get("frac", {}).items())
+                ractive = ",".join(str(a) for a in cur.get("active", []))
+                rlocked = ";".join(",".join(str(e) for e in es) + ":" + ",".join(str(p) for p in ps) for es, ps in cur.get("locked", []))
+                rcstep = str(cur.get("cstep"))
+            except Exception as e:  # noqa: BLE001
+                rfrac = "unreadable:" + type(e).__name__
+        return {"_restart_frac": rfrac, "_restart_active": ractive, "_restart_locked": rlocked, "_restart_cstep": rcstep,
+                "W": W, "trajs": trajs, "locks": locks, "locked": locked, "locked0": locked0,
                 "toinit": str(st.toinitiate), "cworker": str(st.cworker if st.cworker is not None else 0), "cstep": str(st.cstep),
                 "trajnum": str(st.config["current"]["traj_num"]), "frac": frac, "rows": self.rows_real(),
                 "occ": occ, "rng": f"{int(ss.entropy)}:{int(ss.n_children_spawned)}:{main_draws}"}
@@ -298,12 +313,41 @@ class Sim:
         return ws
 
 
+def read_image(tmpdir):
+    """the [current] table of the restart.toml the code wrote + 'restarted_from' as setup_config sets it"""
+    import tomli
+    with open(os.path.join(tmpdir, "restart.toml"), "rb") as fh:
+        cur = tomli.load(fh)["current"]
+    cur["restarted_from"] = cur["cstep"]
+    return cur
+
+
 def run_history(ctx, n_ens, workers, steps, seed=0, wf=False, eng_types=1, acc_p=0.7, dump_every=1,
-                chooser=None):
+                chooser=None, rng=None, restarts=()):
+    """`restarts`: step counts after which the process is "killed" (right after the restart file of that
+    step was written) and a new REPEX_state is built from the restart file, as setup_config +
+    setup_internal do.  Returns the LAST Sim; earlier ones are in `.previous` (each with lines/real)."""
+    rng = rng if rng is not None else ctx.rng
+    sims = []
+    image = None
+    weights = None
+    for stop in list(restarts) + [None]:
+        sim = _run_segment(ctx, n_ens, workers, steps, seed, wf, eng_types, acc_p, chooser, rng, stop, image, weights)
+        sims.append(sim)
+        if stop is None or sim.error is not None or sim.image is None:
+            break
+        image, weights = sim.image, sim.weights_by_pn
+    last = sims[-1]
+    last.previous = sims[:-1]
+    return last
+
+
+def _run_segment(ctx, n_ens, workers, steps, seed, wf, eng_types, acc_p, chooser, rng, stop_after, image, weights):
     """One scheduler-shaped history.  Returns the Sim (closed) with lines/real/kinds filled and
     `snap`: list of (real dump dict, in-flight job summaries) after every op."""
-    sim = Sim(ctx, n_ens, workers, steps, seed=seed, wf=wf, eng_types=eng_types)
-    rng = ctx.rng
+    sim = Sim(ctx, n_ens, workers, steps, seed=seed, wf=wf, eng_types=eng_types, rng=rng,
+              cstep=0 if image is None else image["cstep"], image=image)
+    sim.image = None
     snaps = []
     inflight = []
     error = None
@@ -316,7 +360,11 @@ def run_history(ctx, n_ens, workers, steps, seed=0, wf=False, eng_types=1, acc_p
         snaps.append((tag, d, held))
 
     try:
-        sim.load_initial()
+        if image is None:
+            sim.load_initial()
+        else:
+            sim.load_initial([FakePath(pn, weights[pn]) for pn in image["active"]],
+                             {int(k): [float(x) for x in v] for k, v in image["frac"].items()})
         snap("loaded")
         base = {"mc_moves": sim.st.mc_moves, "interfaces": sim.st.interfaces, "cap": None}
         while sim.op_initiate():
@@ -331,6 +379,10 @@ def run_history(ctx, n_ens, workers, steps, seed=0, wf=False, eng_types=1, acc_p
             ws = sim.random_new_weights(md, rng)
             md = sim.op_treat(md, status, ws)
             snap("treat")
+            if stop_after is not None and sim.st.cstep >= stop_after:
+                sim.image = read_image(sim.tmp)
+                sim.weights_by_pn = {pn: v["weights"] for pn, v in sim.st.traj_data.items()}
+                break
             if sim.st.cstep + sim.st.workers <= sim.st.tsteps:
                 md = sim.op_prep(md)
                 inflight.append(md)
@@ -379,6 +431,8 @@ def compare(ctx, sim, model_out, label):
         if kind == "dump":
             md = parse_dump(mod)
             for k, rv in real.items():
+                if k.startswith("_"):
+                    continue
                 mv = md.get(k, "<missing>")
                 if k == "rows":
                     # the data file masks entries: compare the columns it shows
